@@ -223,7 +223,7 @@ def makeSpan (rbCols : Int) (row : Array Cell) (col cols : Int) : Option (Array 
       | some ec =>
         let row := setCell row «end» ec
         some ((List.range (spanend - «end» - 1).toNat).foldl
-          (fun r i => let c := «end» + 1 + i; setCell r c { (getCell r c) with cols := «end» }) row)
+          (fun r (i : Nat) => let c : Int := «end» + 1 + (i : Int); setCell r c { (getCell r c) with cols := «end» }) row)
     else some row
   -- If the initial cell is a CONT, shorten its start
   let row ← if (getCell row col).state = .cont then
@@ -234,7 +234,7 @@ def makeSpan (rbCols : Int) (row : Array Cell) (col cols : Int) : Option (Array 
       | _ => none
     else some row
   let row := (List.range cols.toNat).foldl
-    (fun r i => let c := col + i; setCell r c { state := .cont, cols := col }) row
+    (fun r (i : Nat) => let c : Int := col + (i : Int); setCell r c { state := .cont, cols := col }) row
   some (setCell row col { (getCell row col) with cols := cols })
 
 /-- A span-creating call (`put_string`, `erase`, `skip`, `put_char`) without masks: one span. -/
